@@ -1,0 +1,580 @@
+//! Verification hooks (cargo feature `verif-hooks`).
+//!
+//! Everything in here is additive instrumentation for an external model-checking harness:
+//! read-only views of the interpreter state, a way to decide *when* a collection runs, a
+//! quarantine mode for the collector (swept objects are poisoned in place instead of being
+//! released, so that a later use is memory-safe, deterministic and observable), allocation
+//! event callbacks and a per-dispatch instruction counter.
+//!
+//! With the feature off none of this is compiled and the crate is unchanged.
+#![allow(clippy::missing_safety_doc)]
+
+use std::cell::RefCell;
+use std::collections::HashMap;
+use std::ptr::NonNull;
+
+use crate::value::Value;
+use crate::vm::runtime::cao_lang_object::{CaoLangObject, CaoLangObjectBody, GcMarker};
+use crate::vm::runtime::RuntimeData;
+use crate::vm::Vm;
+
+pub use crate::alloc::{AllocError, AllocProxy, Allocator, CaoLangAllocator, SysAllocator};
+
+/// Value written over the contents of quarantined objects
+pub const POISON: i64 = -0x0DEAD_0DEAD;
+
+#[derive(Debug, Clone, Copy, PartialEq, Eq)]
+pub enum AllocEventKind {
+    Alloc,
+    Dealloc,
+    Failed,
+}
+
+#[derive(Debug, Clone, Copy)]
+pub struct AllocEvent {
+    pub kind: AllocEventKind,
+    /// sequence number of the allocation *request* (Alloc/Failed); for Dealloc the number of
+    /// requests seen so far
+    pub seq: u64,
+    pub ptr: usize,
+    pub size: usize,
+    pub align: usize,
+    pub allocated_after: usize,
+    pub next_gc: usize,
+    pub limit: usize,
+}
+
+#[derive(Debug, Clone, Copy)]
+pub struct InstrEvent {
+    pub post: bool,
+    pub opcode: u8,
+    pub addr: u32,
+    /// nesting level of `_run` (1 = the run started by `Vm::run`)
+    pub level: u32,
+}
+
+type ForceGc = Box<dyn FnMut(u64) -> bool>;
+type OnAlloc = Box<dyn FnMut(&AllocEvent)>;
+type OnInstr = Box<dyn FnMut(&InstrEvent, &RuntimeData)>;
+
+#[derive(Default)]
+struct Ctl {
+    alloc_seq: u64,
+    gc_count: u64,
+    instr_count: u64,
+    run_level: u32,
+    quarantine: bool,
+    /// quarantined objects: address -> original object pointer
+    dead: HashMap<usize, NonNull<CaoLangObject>>,
+    dead_order: Vec<usize>,
+}
+
+thread_local! {
+    static CTL: RefCell<Ctl> = RefCell::new(Ctl::default());
+    static FORCE_GC: RefCell<Option<ForceGc>> = const { RefCell::new(None) };
+    static ON_ALLOC: RefCell<Option<OnAlloc>> = const { RefCell::new(None) };
+    static ON_INSTR: RefCell<Option<OnInstr>> = const { RefCell::new(None) };
+}
+
+// ---------------------------------------------------------------------------------------------
+// control surface used by the harness
+// ---------------------------------------------------------------------------------------------
+
+/// Reset all counters and remove all callbacks. Quarantined objects must have been released
+/// (by `Vm::clear` / drop of the Vm) before.
+pub fn reset() {
+    CTL.with(|c| {
+        let mut c = c.borrow_mut();
+        c.alloc_seq = 0;
+        c.gc_count = 0;
+        c.instr_count = 0;
+        c.run_level = 0;
+        c.quarantine = false;
+        c.dead.clear();
+        c.dead_order.clear();
+    });
+    FORCE_GC.with(|f| *f.borrow_mut() = None);
+    ON_ALLOC.with(|f| *f.borrow_mut() = None);
+    ON_INSTR.with(|f| *f.borrow_mut() = None);
+}
+
+/// The closure is asked once per allocation request of the VM allocator (argument: sequence number
+/// of the request, starting at 0 after `reset`); returning true runs a collection at the place
+/// the natural trigger would run it.
+pub fn set_force_gc(f: Option<ForceGc>) {
+    FORCE_GC.with(|x| *x.borrow_mut() = f);
+}
+
+pub fn set_on_alloc(f: Option<OnAlloc>) {
+    ON_ALLOC.with(|x| *x.borrow_mut() = f);
+}
+
+pub fn set_on_instr(f: Option<OnInstr>) {
+    ON_INSTR.with(|x| *x.borrow_mut() = f);
+}
+
+pub fn set_quarantine(on: bool) {
+    CTL.with(|c| c.borrow_mut().quarantine = on);
+}
+
+pub fn alloc_seq() -> u64 {
+    CTL.try_with(|c| c.borrow().alloc_seq).unwrap_or(0)
+}
+
+pub fn gc_count() -> u64 {
+    CTL.with(|c| c.borrow().gc_count)
+}
+
+pub fn instr_count() -> u64 {
+    CTL.with(|c| c.borrow().instr_count)
+}
+
+pub fn reset_instr_count() {
+    CTL.with(|c| c.borrow_mut().instr_count = 0);
+}
+
+pub fn run_level() -> u32 {
+    CTL.with(|c| c.borrow().run_level)
+}
+
+/// addresses of quarantined (swept but not released) objects, in sweep order
+pub fn dead_objects() -> Vec<usize> {
+    CTL.with(|c| c.borrow().dead_order.clone())
+}
+
+pub fn is_dead(addr: usize) -> bool {
+    CTL.with(|c| c.borrow().dead.contains_key(&addr))
+}
+
+// ---------------------------------------------------------------------------------------------
+// call-ins from the instrumented code
+// ---------------------------------------------------------------------------------------------
+
+fn emit(ev: AllocEvent) {
+    // take the callback out while it runs so that a re-entrant allocation can not alias it
+    let cb = ON_ALLOC.try_with(|f| f.borrow_mut().take()).ok().flatten();
+    if let Some(mut cb) = cb {
+        cb(&ev);
+        let _ = ON_ALLOC.try_with(|f| {
+            let mut f = f.borrow_mut();
+            if f.is_none() {
+                *f = Some(cb);
+            }
+        });
+    }
+}
+
+fn counters_of(a: &CaoLangAllocator) -> (usize, usize, usize) {
+    use std::sync::atomic::Ordering::Relaxed;
+    (
+        a.allocated.load(Relaxed),
+        a.next_gc.load(Relaxed),
+        a.limit.load(Relaxed),
+    )
+}
+
+/// called for every allocation request, before the limit is checked; returns the sequence number
+pub(crate) fn alloc_request() -> u64 {
+    CTL.try_with(|c| {
+        let mut c = c.borrow_mut();
+        let s = c.alloc_seq;
+        c.alloc_seq += 1;
+        s
+    })
+    .unwrap_or(0)
+}
+
+/// should a collection be forced for request `seq`?
+pub(crate) fn force_gc_now(seq: u64) -> bool {
+    let cb = FORCE_GC.try_with(|f| f.borrow_mut().take()).ok().flatten();
+    match cb {
+        Some(mut cb) => {
+            let res = cb(seq);
+            let _ = FORCE_GC.try_with(|f| {
+                let mut f = f.borrow_mut();
+                if f.is_none() {
+                    *f = Some(cb);
+                }
+            });
+            res
+        }
+        None => false,
+    }
+}
+
+pub(crate) fn alloc_failed(a: &CaoLangAllocator, seq: u64, l: std::alloc::Layout) {
+    let (allocated, next_gc, limit) = counters_of(a);
+    emit(AllocEvent {
+        kind: AllocEventKind::Failed,
+        seq,
+        ptr: 0,
+        size: l.size(),
+        align: l.align(),
+        allocated_after: allocated,
+        next_gc,
+        limit,
+    });
+}
+
+pub(crate) fn alloc_done(a: &CaoLangAllocator, seq: u64, l: std::alloc::Layout, ptr: *mut u8) {
+    let (allocated, next_gc, limit) = counters_of(a);
+    emit(AllocEvent {
+        kind: AllocEventKind::Alloc,
+        seq,
+        ptr: ptr as usize,
+        size: l.size(),
+        align: l.align(),
+        allocated_after: allocated,
+        next_gc,
+        limit,
+    });
+}
+
+pub(crate) fn dealloc_done(a: &CaoLangAllocator, l: std::alloc::Layout, ptr: *mut u8) {
+    let (allocated, next_gc, limit) = counters_of(a);
+    emit(AllocEvent {
+        kind: AllocEventKind::Dealloc,
+        seq: alloc_seq(),
+        ptr: ptr as usize,
+        size: l.size(),
+        align: l.align(),
+        allocated_after: allocated,
+        next_gc,
+        limit,
+    });
+}
+
+pub(crate) fn gc_started() {
+    let _ = CTL.try_with(|c| c.borrow_mut().gc_count += 1);
+}
+
+/// Called by the sweep for every unreachable object. Returns true if the object was quarantined
+/// (the caller must then *not* release it).
+pub(crate) fn quarantine(obj: NonNull<CaoLangObject>) -> bool {
+    let on = CTL.try_with(|c| c.borrow().quarantine).unwrap_or(false);
+    if !on {
+        return false;
+    }
+    unsafe {
+        let o = &mut *obj.as_ptr();
+        match &mut o.body {
+            CaoLangObjectBody::Table(t) => t.verif_poison(Value::Integer(POISON)),
+            CaoLangObjectBody::String(s) => {
+                // overwrite the payload, keep the length (and with it the layout for the release)
+                std::ptr::write_bytes(s.ptr.as_ptr(), b'?', s.len);
+            }
+            CaoLangObjectBody::Function(f) => f.handle = Default::default(),
+            CaoLangObjectBody::NativeFunction(f) => f.handle = Default::default(),
+            CaoLangObjectBody::Closure(c) => c.function.handle = Default::default(),
+            CaoLangObjectBody::Upvalue(u) => {
+                u.value = Value::Integer(POISON);
+                u.location = &mut u.value as *mut _;
+            }
+        }
+    }
+    CTL.with(|c| {
+        let mut c = c.borrow_mut();
+        let addr = obj.as_ptr() as usize;
+        c.dead.insert(addr, obj);
+        c.dead_order.push(addr);
+    });
+    true
+}
+
+/// Called by `RuntimeData::clear`: hands back the quarantined objects so that they are released
+/// the normal way.
+pub(crate) fn take_quarantined() -> Vec<NonNull<CaoLangObject>> {
+    CTL.try_with(|c| {
+        let mut c = c.borrow_mut();
+        let order = std::mem::take(&mut c.dead_order);
+        let mut dead = std::mem::take(&mut c.dead);
+        order
+            .into_iter()
+            .filter_map(|a| dead.remove(&a))
+            .collect::<Vec<_>>()
+    })
+    .unwrap_or_default()
+}
+
+pub(crate) struct RunGuard;
+
+impl RunGuard {
+    pub(crate) fn enter() -> Self {
+        let _ = CTL.try_with(|c| c.borrow_mut().run_level += 1);
+        RunGuard
+    }
+}
+
+impl Drop for RunGuard {
+    fn drop(&mut self) {
+        let _ = CTL.try_with(|c| {
+            let mut c = c.borrow_mut();
+            c.run_level = c.run_level.saturating_sub(1);
+        });
+    }
+}
+
+pub(crate) fn instr(post: bool, opcode: u8, addr: usize, rt: &RuntimeData) {
+    let level = CTL.with(|c| {
+        let mut c = c.borrow_mut();
+        if !post {
+            c.instr_count += 1;
+        }
+        c.run_level
+    });
+    let cb = ON_INSTR.with(|f| f.borrow_mut().take());
+    if let Some(mut cb) = cb {
+        cb(
+            &InstrEvent {
+                post,
+                opcode,
+                addr: addr as u32,
+                level,
+            },
+            rt,
+        );
+        ON_INSTR.with(|f| {
+            let mut f = f.borrow_mut();
+            if f.is_none() {
+                *f = Some(cb);
+            }
+        });
+    }
+}
+
+// ---------------------------------------------------------------------------------------------
+// read-only views
+// ---------------------------------------------------------------------------------------------
+
+/// (allocated, next_gc, limit)
+pub fn counters(rt: &RuntimeData) -> (usize, usize, usize) {
+    counters_of(&rt.memory)
+}
+
+pub fn set_next_gc(rt: &mut RuntimeData, v: usize) {
+    rt.memory
+        .next_gc
+        .store(v, std::sync::atomic::Ordering::Relaxed);
+}
+
+pub fn set_limit(rt: &mut RuntimeData, v: usize) {
+    rt.memory
+        .limit
+        .store(v, std::sync::atomic::Ordering::Relaxed);
+}
+
+pub fn stack(rt: &RuntimeData) -> Vec<Value> {
+    rt.value_stack.as_slice().to_vec()
+}
+
+pub fn stack_len(rt: &RuntimeData) -> usize {
+    rt.value_stack.len()
+}
+
+pub fn call_depth(rt: &RuntimeData) -> usize {
+    rt.call_stack.len()
+}
+
+pub fn globals(rt: &RuntimeData) -> Vec<Value> {
+    rt.global_vars.clone()
+}
+
+#[derive(Debug, Clone)]
+pub struct FrameView {
+    pub src: u32,
+    pub dst: u32,
+    pub offset: u32,
+    /// address of the closure *object* this frame executes, if any
+    pub closure_obj: Option<usize>,
+}
+
+pub fn frames(rt: &RuntimeData) -> Vec<FrameView> {
+    rt.call_stack
+        .iter()
+        .map(|f| {
+            let mut closure_obj = None;
+            if !f.closure.is_null() {
+                let candidates = rt
+                    .object_list
+                    .iter()
+                    .copied()
+                    .chain(CTL.with(|c| c.borrow().dead.values().copied().collect::<Vec<_>>()));
+                for o in candidates {
+                    unsafe {
+                        if let CaoLangObjectBody::Closure(c) = &(*o.as_ptr()).body {
+                            if std::ptr::eq(c, f.closure) {
+                                closure_obj = Some(o.as_ptr() as usize);
+                            }
+                        }
+                    }
+                }
+                if closure_obj.is_none() {
+                    // the closure object is neither live nor quarantined: report the raw address
+                    closure_obj = Some(f.closure as usize);
+                }
+            }
+            FrameView {
+                src: f.src_instr_ptr,
+                dst: f.dst_instr_ptr,
+                offset: f.stack_offset,
+                closure_obj,
+            }
+        })
+        .collect()
+}
+
+#[derive(Debug, Clone, Copy, PartialEq, Eq)]
+pub enum ObjKind {
+    Table,
+    String,
+    Function,
+    NativeFunction,
+    Closure,
+    Upvalue,
+}
+
+#[derive(Debug, Clone)]
+pub struct ObjView {
+    pub addr: usize,
+    pub kind: ObjKind,
+    /// 0 white, 1 gray, 2 black, 3 protected
+    pub marker: u8,
+    pub dead: bool,
+    /// addresses of the objects this object refers to (table keys and values, closure upvalues,
+    /// the value an upvalue points at)
+    pub children: Vec<usize>,
+}
+
+fn value_addr(v: &Value) -> Option<usize> {
+    match v {
+        Value::Object(o) => Some(o.as_ptr() as usize),
+        _ => None,
+    }
+}
+
+unsafe fn view_of(o: NonNull<CaoLangObject>, dead: bool) -> ObjView {
+    let obj = &*o.as_ptr();
+    let mut children = Vec::new();
+    let kind = match &obj.body {
+        CaoLangObjectBody::Table(t) => {
+            for k in t.keys() {
+                children.extend(value_addr(k));
+            }
+            for (_h, k, v) in t.verif_raw_slots().into_iter().flatten() {
+                children.extend(value_addr(k));
+                children.extend(value_addr(v));
+            }
+            ObjKind::Table
+        }
+        CaoLangObjectBody::String(_) => ObjKind::String,
+        CaoLangObjectBody::Function(_) => ObjKind::Function,
+        CaoLangObjectBody::NativeFunction(_) => ObjKind::NativeFunction,
+        CaoLangObjectBody::Closure(c) => {
+            for u in c.upvalues.iter() {
+                children.push(u.as_ptr() as usize);
+            }
+            ObjKind::Closure
+        }
+        CaoLangObjectBody::Upvalue(u) => {
+            if !u.location.is_null() {
+                children.extend(value_addr(&*u.location));
+            }
+            ObjKind::Upvalue
+        }
+    };
+    children.sort_unstable();
+    children.dedup();
+    ObjView {
+        addr: o.as_ptr() as usize,
+        kind,
+        marker: match obj.marker {
+            GcMarker::White => 0,
+            GcMarker::Gray => 1,
+            GcMarker::Black => 2,
+            GcMarker::Protected => 3,
+        },
+        dead,
+        children,
+    }
+}
+
+/// every object the runtime knows about: the live list followed by the quarantined ones
+pub fn objects(rt: &RuntimeData) -> Vec<ObjView> {
+    let mut res = Vec::with_capacity(rt.object_list.len());
+    for o in rt.object_list.iter().copied() {
+        res.push(unsafe { view_of(o, false) });
+    }
+    let dead: Vec<NonNull<CaoLangObject>> = CTL.with(|c| {
+        let c = c.borrow();
+        c.dead_order
+            .iter()
+            .filter_map(|a| c.dead.get(a).copied())
+            .collect()
+    });
+    for o in dead {
+        res.push(unsafe { view_of(o, true) });
+    }
+    res
+}
+
+pub fn live_object_count(rt: &RuntimeData) -> usize {
+    rt.object_list.len()
+}
+
+/// addresses of the objects on the open-upvalue list, head first. The walk stops at the first
+/// entry that is not an upvalue object (which is reported as `Err` with the partial list).
+pub fn open_upvalues(rt: &RuntimeData) -> Result<Vec<usize>, Vec<usize>> {
+    let mut res = Vec::new();
+    let mut p = rt.open_upvalues;
+    let mut guard = 0usize;
+    while !p.is_null() {
+        res.push(p as usize);
+        guard += 1;
+        if guard > 1_000_000 {
+            return Err(res);
+        }
+        unsafe {
+            match &(*p).body {
+                CaoLangObjectBody::Upvalue(u) => p = u.next,
+                _ => return Err(res),
+            }
+        }
+    }
+    Ok(res)
+}
+
+/// `true` if the upvalue object at `addr` is open and points into the value stack; returns the
+/// slot index
+pub fn upvalue_slot(rt: &RuntimeData, addr: usize) -> Option<usize> {
+    let base = rt.value_stack.as_slice().as_ptr() as usize;
+    unsafe {
+        let o = &*(addr as *const CaoLangObject);
+        if let CaoLangObjectBody::Upvalue(u) = &o.body {
+            let loc = u.location as usize;
+            if loc != (&u.value as *const Value as usize) && loc >= base {
+                return Some((loc - base) / std::mem::size_of::<Value>());
+            }
+        }
+    }
+    None
+}
+
+/// (opcode, name, span in bytes incl. the opcode) for every opcode the crate knows
+pub fn instruction_table() -> Vec<(u8, String, usize)> {
+    use std::convert::TryFrom;
+    let mut res = Vec::new();
+    for i in 0..=u8::MAX {
+        if let Ok(instr) = crate::instruction::Instruction::try_from(i) {
+            res.push((i, format!("{:?}", instr), instr.span()));
+        }
+    }
+    res
+}
+
+pub fn vm_stack_len<A>(vm: &Vm<A>) -> usize {
+    vm.runtime_data.value_stack.len()
+}
+
+pub fn vm_call_depth<A>(vm: &Vm<A>) -> usize {
+    vm.runtime_data.call_stack.len()
+}
